@@ -92,7 +92,7 @@ fn baseline(user: bool, matrix: Matrix) -> Case {
         // read like its headword, the second is read like its key
         Row::new("ab", 1, 1, 50, P_NOUN).headword("ＡＢ").reading("ＡＢ"),
         Row::new("ab", 1, 1, 60, P_NOUN).reading("ab"),
-        // ... and a third one that an inline reference cannot tell from the second: the first listed wins
+        // ... and a third one that an inline reference cannot tell from the second (either may be meant)
         Row::new("ab", 1, 1, 70, P_NOUN).reading("ab").norm("AB3"),
         Row::new("さ", 1, 1, 700, P_NOUN).reading("サ"),
         Row::new("ん", 1, 0, 900, P_PROPN).reading("ン").norm("む").synonyms("7"),
@@ -286,34 +286,44 @@ pub struct RoundTrip {
 }
 
 /// expected resolved word id of a split unit, as reported after loading
-fn resolve_unit(case: &Case, in_user: bool, unit: &str, user_no: u32) -> Option<u32> {
+/// the word ids a unit may resolve to: exactly one for numeric and `U` references; for an inline
+/// reference every entry of the first dictionary that has a match (own dictionary before the
+/// system dictionary) whose key, part of speech and reading equal the reference - entries that
+/// agree in all three cannot be told apart by the reference, so any of them is "the intended one"
+fn resolve_unit(case: &Case, in_user: bool, unit: &str, user_no: u32) -> Vec<u32> {
     if unit.starts_with('U') && unit[1..].chars().all(|c| c.is_ascii_digit()) {
-        return unit[1..].parse::<u32>().ok().map(|n| (user_no << 28) | n);
+        return unit[1..].parse::<u32>().ok().map(|n| (user_no << 28) | n).into_iter().collect();
     }
     if unit.chars().all(|c| c.is_ascii_digit()) && !unit.is_empty() {
-        return unit.parse::<u32>().ok();
+        return unit.parse::<u32>().ok().into_iter().collect();
     }
     // inline: surface,pos*6,reading
     let f: Vec<&str> = unit.splitn(8, ',').collect();
     if f.len() != 8 {
-        return None;
+        return vec![];
     }
     let surface = ref_unescape(f[0]);
     let pos: Vec<String> = f[1..7].iter().map(|s| ref_unescape(s)).collect();
     let reading = ref_unescape(f[7]);
-    let find = |rows: &Vec<Row>, dic: u32| -> Option<u32> {
+    let find = |rows: &Vec<Row>, dic: u32| -> Vec<u32> {
+        let mut v = Vec::new();
         for (i, r) in rows.iter().enumerate() {
             let rs = ref_unescape(&r.surface);
             let rr = ref_unescape(&r.reading);
             let rp: Vec<String> = r.pos.iter().map(|s| ref_unescape(s)).collect();
             if rs == surface && rp == pos && rr == reading {
-                return Some((dic << 28) | i as u32);
+                v.push((dic << 28) | i as u32);
             }
         }
-        None
+        v
     };
     if in_user {
-        find(&case.user, user_no).or_else(|| find(&case.system, 0))
+        let own = find(&case.user, user_no);
+        if own.is_empty() {
+            find(&case.system, 0)
+        } else {
+            own
+        }
     } else {
         find(&case.system, 0)
     }
@@ -422,11 +432,13 @@ impl RoundTrip {
                 }
                 // splits and word structure
                 for (name, decl, obs) in [("A split", &row.split_a, wi.a_unit_split()), ("B split", &row.split_b, wi.b_unit_split()), ("word structure", &row.word_structure, wi.word_structure())] {
-                    let exp: Vec<Option<u32>> = if decl == "*" || decl.is_empty() { vec![] } else { decl.split('/').map(|u| resolve_unit(case, dic != 0, u, user_no)).collect() };
-                    let obs: Vec<Option<u32>> = obs.iter().map(|w| Some(w.as_raw())).collect();
-                    if exp != obs {
-                        let sh = |v: &Vec<Option<u32>>| format!("{:?}{}", v.iter().take(6).collect::<Vec<_>>(), if v.len() > 6 { format!("…({})", v.len()) } else { String::new() });
-                        o.fail(Failure::new("references-differ", format!("{}: {} resolved to {}, declared {} -> {}", c2, name, sh(&obs), decl.chars().take(60).collect::<String>(), sh(&exp))));
+                    let exp: Vec<Vec<u32>> = if decl == "*" || decl.is_empty() { vec![] } else { decl.split('/').map(|u| resolve_unit(case, dic != 0, u, user_no)).collect() };
+                    let obs: Vec<u32> = obs.iter().map(|w| w.as_raw()).collect();
+                    let ok = exp.len() == obs.len() && exp.iter().zip(obs.iter()).all(|(e, o)| e.contains(o));
+                    if !ok {
+                        let sh = |v: &Vec<u32>| format!("{:?}{}", v.iter().take(6).collect::<Vec<_>>(), if v.len() > 6 { format!("…({})", v.len()) } else { String::new() });
+                        let she = |v: &Vec<Vec<u32>>| format!("{:?}{}", v.iter().take(6).collect::<Vec<_>>(), if v.len() > 6 { format!("…({})", v.len()) } else { String::new() });
+                        o.fail(Failure::new("references-differ", format!("{}: {} resolved to {}, declared {} -> (acceptable word ids per unit) {}", c2, name, sh(&obs), decl.chars().take(60).collect::<String>(), she(&exp))));
                     }
                 }
                 let exp_syn: Vec<u32> = if row.synonyms == "*" || row.synonyms.is_empty() { vec![] } else { row.synonyms.split('/').filter_map(|x| x.parse().ok()).collect() };
